@@ -13,7 +13,7 @@ using Pub = cocls::publisher<long>;
 using Sub = cocls::subscriber<long>;
 using ST = cocls::subscribtion_type;
 const char *mode_name(ST t) { return t == ST::all_values ? "all" : t == ST::skip_if_behind ? "skip_if_behind" : "skip_to_recent"; }
-enum { PUBLISHED = 0, CLOSED = 1, PUB_STARTED = 4, EAGER_N = 2, EAGER_EOS = 3, EAGER_LOG = 100, RD_N = 1000 /* per reader count */, RD_EOS = 1010, RD_SUBPOS_LO = 1020, RD_SUBPOS_HI = 1030, RD_KICKED = 1040, RD_LASTPOS = 1050, RD_LEFT = 1060, RD_LOG = 2000 /* 200 per reader */ };
+enum { PUBLISHED = 0, CLOSED = 1, PUB_STARTED = 4, EAGER_N = 2, EAGER_EOS = 3, RECENT_N = 5, RECENT_LAST = 6, RECENT_EOS = 7, ST_P = 8, EAGER_LOG = 100, RD_N = 1000 /* per reader count */, RD_EOS = 1010, RD_SUBPOS_LO = 1020, RD_SUBPOS_HI = 1030, RD_KICKED = 1040, RD_LASTPOS = 1050, RD_LEFT = 1060, RD_LOG = 2000 /* 200 per reader */ };
 
 // eager coroutine reader: consumes everything as soon as it is published
 cocls::async<void> eager_reader(Sub &s) {
@@ -21,6 +21,16 @@ cocls::async<void> eager_reader(Sub &s) {
         bool ok = co_await s.next();
         if (!ok) { dsim::cell_add(EAGER_EOS, 1); co_return; }
         long k = dsim::cell_add(EAGER_N, 1) - 1; dsim::cell_set(EAGER_LOG + (int)k, s.value());
+    }
+}
+
+// the same, subscribed in skip_to_recent mode: whenever a publish (single or batch) wakes it, it must be handed the newest value
+cocls::async<void> recent_reader(Sub &s) {
+    for (;;) {
+        bool ok = co_await s.next();
+        if (!ok) { dsim::cell_add(RECENT_EOS, 1); co_return; }
+        dsim::cell_add(RECENT_N, 1); dsim::cell_set(RECENT_LAST, s.value());
+        if (s.value() != dsim::cell_get(ST_P)) dsim::fail("C16.not_newest", "parked skip_to_recent subscriber was handed %ld while the newest published value is %ld", s.value(), dsim::cell_get(ST_P));
     }
 }
 
@@ -34,6 +44,7 @@ void single_thread() {
     std::vector<MSub> subs;
     long P = 0; bool closed = false;
     std::unique_ptr<Sub> eager_sub; long eager_from = -1; bool eager_kicked = false;
+    std::unique_ptr<Sub> recent_sub; long recent_pubs = 0;     // parked skip_to_recent coroutine reader, publish operations since it subscribed
     auto lag_exceeds = [&](long r) { return !unlimited && (P - r) > (long)maxq; };
     auto check_eager = [&](const char *after) {
         if (!eager_sub) return;
@@ -51,8 +62,9 @@ void single_thread() {
             MSub &m = subs[dsim::choose((unsigned)subs.size())];
             if (!m.ended) { m.s.reset(); m.ended = true; dsim::plan_note(" leave"); }
         }
-        else if ((op == 0 || op == 7) && !closed) { pub->publish(++P); dsim::plan_note(" pub"); }
-        else if (op == 1 && !closed) { int n = 2 + dsim::choose(3); std::vector<long> b; for (int i = 0; i < n; i++) b.push_back(++P); pub->publish(b.begin(), b.end()); dsim::plan_note(" batch%d", n); }
+        else if ((op == 0 || op == 7) && !closed) { dsim::cell_set(ST_P, P + 1); pub->publish(++P); dsim::plan_note(" pub"); if (recent_sub) recent_pubs++; }
+        else if (op == 1 && !closed) { int n = 2 + dsim::choose(3); std::vector<long> b; for (int i = 0; i < n; i++) b.push_back(++P); dsim::cell_set(ST_P, P); pub->publish(b.begin(), b.end()); dsim::plan_note(" batch%d", n); if (recent_sub) recent_pubs++; }
+        else if (op == 8 && !recent_sub && !closed) { recent_sub = std::make_unique<Sub>(*pub, ST::skip_to_recent); recent_reader(*recent_sub).detach(); dsim::plan_note(" recent-reader"); }
         else if (op == 2 && subs.size() < 4 && !closed) {
             ST t = (ST)dsim::choose(3); int how = dsim::choose(3);
             MSub m; m.t = t;
@@ -91,6 +103,12 @@ void single_thread() {
         else if (op == 5 && !eager_sub && !closed) { eager_sub = std::make_unique<Sub>(*pub); eager_from = P; eager_reader(*eager_sub).detach(); dsim::plan_note(" eager"); }
         else if (op == 6 && dsim::choose(3) == 0 && !closed) { if (dsim::flip()) pub->close(); else pub.reset(); closed = true; dsim::plan_note(" close"); if (!pub) { check_eager("publisher destruction"); break; } }
         check_eager("step");
+        if (recent_sub && !dsim::cell_get(RECENT_EOS)) {     // woken once per publish operation, each time with the newest value
+            // (at least once: after a batch the library hands the newest item out a second time - the wake-up moved the position by one only -
+            // which the statement allows: positions still move forward and the value is the newest)
+            if (dsim::cell_get(RECENT_N) < recent_pubs) dsim::fail("C16.lost_wakeup", "parked skip_to_recent subscriber was woken %ld times by %ld publish operations", dsim::cell_get(RECENT_N), recent_pubs);
+            if (recent_pubs && dsim::cell_get(RECENT_LAST) != P) dsim::fail("C16.not_newest", "parked skip_to_recent subscriber was handed %ld, the newest published value is %ld", dsim::cell_get(RECENT_LAST), P);
+        }
     }
     if (pub) { pub.reset(); closed = true; }
     check_eager("publisher destruction");
